@@ -13,7 +13,9 @@ REPO = os.environ.get("CACHED_REPO", "/repo")
 #  the registered checks never set them)
 BUILD = os.environ.get("VERIF_BUILD_DIR", os.path.join(VERIF, ".build"))
 TARGET = os.path.join(BUILD, "target")
-TMP = os.path.join(BUILD, "tmp")
+# scratch files of one run of one check: a directory of its own (two runs of the same check at the same time must not
+# overwrite each other's case files), removed when the run ends
+TMP = os.path.join(BUILD, "tmp", "p%d" % os.getpid())
 COQ = os.path.join(VERIF, "coq")
 HARNESS_DIR = os.environ.get("VERIF_HARNESS_DIR", os.path.join(VERIF, "harness"))
 EVIDENCE = os.environ.get("VERIF_EVIDENCE_DIR", os.path.join(VERIF, "evidence"))
@@ -38,6 +40,15 @@ class Broken(Exception):
 def ensure_dirs():
     for d in (BUILD, TMP, EVIDENCE, REPLAYS):
         os.makedirs(d, exist_ok=True)
+
+
+def _remove_tmp():
+    import shutil
+    shutil.rmtree(TMP, ignore_errors=True)
+
+
+import atexit
+atexit.register(_remove_tmp)
 
 
 def cargo_env():
